@@ -268,6 +268,8 @@ static Bytes ep_encrypt(Endpoint &e, const Bytes &m, const Bytes &ad, Rng *chunk
     return Bytes(c.p, c.p + std::min(clen, c.n));
 }
 
+static bool g_inc_not_started = false; // set when an incremental receiver could not even start a packet
+
 // Decrypt through the endpoint's family. *wiped = plaintext buffer all zero afterwards.
 static int ep_decrypt(Endpoint &e, const Bytes &x, const Bytes &ad, Bytes &m_out, size_t *mlen_rep, bool *wiped,
                       Rng *chunker, bool page, Run &run)
@@ -299,7 +301,7 @@ static int ep_decrypt(Endpoint &e, const Bytes &x, const Bytes &ad, Bytes &m_out
         else r = ascon80pq_isap_aead_decrypt(m.p, &mlen, ptr(x), x.size(), ptr(ad), ad.size(), e.nonce, &e.u.ik80);
         break;
     case INC: {
-        if (x.size() < 16) { *mlen_rep = 0; *wiped = true; m_out.clear(); return -2; } // a receiver cannot even split off a tag
+        if (x.size() < 16) { *mlen_rep = 0; *wiped = true; m_out.clear(); g_inc_not_started = true; return -1; } // a receiver cannot even split off a tag: the library is not called
         size_t pos = 0;
         if (alg == A128) ascon128_aead_start(&e.u.s128, ptr(ad), ad.size());
         else if (alg == A128A) ascon128a_aead_start(&e.u.s128a, ptr(ad), ad.size());
@@ -636,12 +638,14 @@ struct ChannelWorld : World {
         Bytes m_out;
         size_t mlen_rep = 0;
         bool wiped = false;
+        g_inc_not_started = false;
         int r = ep_decrypt(B, x, ad, m_out, &mlen_rep, &wiped, &chunker, c.page, *c.run);
+        bool inc_started = !g_inc_not_started;
         bool accept = judge(c, S, B, x, ad, r, mlen_rep, wiped, m_out, "deliver");
         int cls = fam_cls(B.fam);
         if (c.record) c.run->state(fmt("dlv/%d/%d/%d/%s", cls, fk, accept, lenclass(x.size() >= 16 ? x.size() - 16 : 0, B.fam)));
         if (cls == INC) {
-            if (r != -2) { advance_model(c, B); sync_explicit_nonce(c, B, "after_start"); }
+            if (inc_started) { advance_model(c, B); sync_explicit_nonce(c, B, "after_start"); }
         } else if (is_cpp(B.fam)) {
             // C14 for the C++ objects: +1 after a successful decrypt, unchanged after a failed one.
             // Substrate: the library's own C one-shot decrypt under the model nonce.
